@@ -1,4 +1,5 @@
-CONSTANT MaxLen = 4
+CONSTANT MaxLen = 3
+CONSTANT Vars = {"mv","nd","pd"}
 INIT Init
 NEXT Next
 INVARIANT Emit
